@@ -815,6 +815,19 @@ func amtPaths() []amtPath {
 		{name: "v2.script.monetary-amount-number", body: func(n *big.Int, dst string) *AJ {
 			return ajobj("script", ajobj("plain", ajstr(amtScript), "vars", ajobj("dst", ajstr(dst), "m", ajobj("asset", ajstr("USD"), "amount", jbig(n)))))
 		}},
+		// the same integer in the other spellings JSON allows for it: "<n>.0" and mantissa/exponent
+		{name: "v2.script.monetary-amount-number-dot0", body: func(n *big.Int, dst string) *AJ {
+			return ajobj("script", ajobj("plain", ajstr(amtScript), "vars", ajobj("dst", ajstr(dst), "m", ajobj("asset", ajstr("USD"), "amount", jdec(new(big.Int).Mul(n, big.NewInt(10)), -1)))))
+		}},
+		{name: "v2.script.monetary-amount-number-exp", body: func(n *big.Int, dst string) *AJ {
+			m, k := new(big.Int).Set(n), 0
+			ten := big.NewInt(10)
+			for m.Sign() != 0 && new(big.Int).Mod(m, ten).Sign() == 0 {
+				m.Div(m, ten)
+				k++
+			}
+			return ajobj("script", ajobj("plain", ajstr(amtScript), "vars", ajobj("dst", ajstr(dst), "m", ajobj("asset", ajstr("USD"), "amount", jdec(m, k)))))
+		}},
 		{name: "v1.script.var-string", v1: true, body: func(n *big.Int, dst string) *AJ {
 			return ajobj("script", ajobj("plain", ajstr(amtScript), "vars", ajobj("dst", ajstr(dst), "m", ajstr("USD "+n.String()))))
 		}},
